@@ -151,19 +151,15 @@ Definition write_field (env : enum_env) (t : fty) : outcome fieldw :=
                  (Some XKey) lst
                  (match e with Some e => Some (key_ext e) | None => None end)))
   | TFloat f64 l =>
-      Ok (FW (if f64 then KdDouble else KdFloat) None (Some XFloat) (with_arm LFloat l) None)
+      Ok (FW (if f64 then KdDouble else KdFloat) None (Some XFloat)
+            (with_arm (if f64 then LDouble else LFloat) l) None)
   | TDate r l =>
-      match r with
-      | Some _ => Panic "proto.SetExtension(E_Field, *ext_j5pb.DateField)"
-      | None => Ok (FW KdDate None None (with_arm LDate l) None)
-      end
+      (* no setJ5Ext for dates: (j5.ext.v1.field) only when rules are declared *)
+      Ok (FW KdDate None (match r with Some r => Some (XDate (Some r)) | None => None end) (with_arm LDate l) None)
   | TDecimal r l =>
-      match r with
-      | Some _ => Panic "proto.SetExtension(E_Field, *ext_j5pb.DecimalField)"
-      | None => Ok (FW KdDecimal None None (with_arm LDecimal l) None)
-      end
-  | TTimestamp _ => Ok (FW KdTimestamp None (Some XTimestamp) None None)   (* list rules are not written *)
-  | TAny => Ok (FW KdAny None (Some (XAny false [])) None None)
+      Ok (FW KdDecimal None (match r with Some r => Some (XDecimal (Some r)) | None => None end) (with_arm LDecimal l) None)
+  | TTimestamp l => Ok (FW KdTimestamp None (Some XTimestamp) (with_arm LTimestamp l) None)
+  | TAny l => Ok (FW KdAny None (Some (XAny false [])) (with_arm LAny l) None)
   | TObject fl => Ok (FW KdMsgObject None (Some (XObject fl)) None None)
   | TOneof l => Ok (FW KdMsgOneof None (Some XOneof) (with_arm LOneof l) None)
   end.
@@ -205,10 +201,16 @@ Definition write_prop (env : enum_env) (idx : N) (d : prop) : outcome fout :=
   obind (match p_ty d with
          | PSingle t => write_field env t
          | PArray r sf t => obind (write_field env t) (fun w => Ok (wrap_array r sf w))
-         | PMap t => obind (write_field env t) (fun w => Ok (FW (KdMapEntry (fw_kind w)) None None None None))
+         (* the item's annotations sit on the value field of the entry message; of
+            those only (j5.ext.v1.key) is kept here (the reader looks at it) *)
+         | PMap t => obind (write_field env t) (fun w => Ok (FW (KdMapEntry (fw_kind w)) None None None (fw_key w)))
          end)
     (fun w =>
-       let required := p_req d || match fw_key w with Some k => kx_primary k | None => false end in
+       let required := p_req d || match p_ty d, fw_key w with
+                                  | PMap _, _ => false      (* the map field itself has no key annotation *)
+                                  | _, Some k => kx_primary k
+                                  | _, None => false
+                                  end in
        if p_opt d && required then Err "cannot be both required and optional"
        else Ok (FO (p_name d) (idx + 1)%N (fw_kind w)
                    (match p_ty d with PSingle _ => false | _ => true end)
